@@ -607,8 +607,17 @@ def find_object_with_path(obj, lookup_list, rrel_tree, obj_cls=None, split_strin
             return True
 
     for p in rrel_tree.paths:
+        start_obj = obj
+        if p.start_at_root() and not p.start_locally():
+            # The search of this path starts at the model root. Start there,
+            # else `obj` is marked as visited without being expanded and is
+            # skipped when the search reaches it (e.g. `packages*.classes`
+            # referenced from inside a package).
+            from textx import get_model
+
+            start_obj = get_model(obj)
         for obj_res, lookup_list_res, matched_path in p.get_next_matches(
-            obj, lookup_list, allowed, [], first_element=True
+            start_obj, lookup_list, allowed, [], first_element=True
         ):
             if isinstance(obj_res, Postponed):
                 return obj_res  # Postponed
